@@ -560,13 +560,15 @@ def track_branches(ctx, c):
                 ctx.hist("branch:bitmap-grown" if int(nb[1]) > int(ob[1]) else "branch:bitmap-moved-lower" if int(nb[0]) < int(ob[0]) else "branch:bitmap-moved")
             bm = b
         w, ow = op.split(), o.split()
+        if len(ow) < 2:
+            continue        # `bad-op` after a failed open/reopen: the oracle reports that
         if w[0] == "alloc" and ow[1] == "0":
             fl = int(w[3])
             if fl & ALIGNED:
                 ctx.hist("branch:aligned-alloc")
             elif not fl & NO_OVER and int(ow[3]) > roundup(int(w[1]), 1 << (int(c.ops[0].split()[1]) or 6)):
                 ctx.hist("branch:over-allocated")
-        if w[0] == "realloc" and ow[1] == "0":
+        if w[0] == "realloc" and ow[1] == "0" and len(ow) > 4:
             ctx.hist("branch:realloc-moved" if ow[2] != ow[4] else "branch:realloc-shrunk-in-place")
         if w[0] == "reopen" and len(ow) > 2:
             ctx.hist("branch:reopen")
